@@ -120,8 +120,26 @@ Fixpoint dec_renorm (L x : Z) (stk : list Z) : rstate :=
   | b :: r => if x <? L then dec_renorm L ((x * 256 + b) mod 2 ^ 32) r else (x, stk)
   end.
 
-(** The decoder object after Create: num_symbols_, probability_table_ (prob, cum_prob), lut_table_. *)
-Record rdec := { d_n : Z; d_tbl : arr (Z * Z); d_lut : arr Z }.
+(** The decoder object after Create: num_symbols_ and probability_table_ (prob, cum_prob).
+    lut_table_ (slot -> symbol, 2^P entries, filled by rans_build_look_up_table with symbol i in the slots
+    [cum_prob_i, cum_prob_i + prob_i)) is not materialised: [fetch_sym] finds the symbol owning a slot by
+    bisection on cum_prob (the last symbol whose cum_prob is <= the slot), which is the entry the C++ reads
+    from its table whenever rans_build_look_up_table succeeded. *)
+Record rdec := { d_n : Z; d_tbl : arr (Z * Z) }.
+
+Fixpoint bsearch (fuel : nat) (tbl : arr (Z * Z)) (rem lo hi : Z) : option Z :=
+  match fuel with
+  | O => None
+  | S f =>
+    if hi - lo <=? 1 then Some lo else
+    let mid := (lo + hi) / 2 in
+    match arr_get tbl mid with
+    | None => None
+    | Some (_, c) => if c <=? rem then bsearch f tbl rem mid hi else bsearch f tbl rem lo mid
+    end
+  end.
+Definition fetch_sym (d : rdec) (rem : Z) : option Z :=
+  if d_n d <=? 0 then None else bsearch 40 (d_tbl d) rem 0 (d_n d).
 
 (** rans_read: returns the symbol and the new state. *)
 Definition rans_read (P : Z) (d : rdec) (st : rstate) : dres (Z * rstate) :=
@@ -129,7 +147,7 @@ Definition rans_read (P : Z) (d : rdec) (st : rstate) : dres (Z * rstate) :=
   let '(x1, stk1) := dec_renorm (rans_L P) x stk in
   let quo := x1 / 2 ^ P in
   let rem := x1 mod 2 ^ P in
-  match arr_get (d_lut d) rem with                                 (* fetch_sym: lut_table_[rem] *)
+  match fetch_sym d rem with                                       (* fetch_sym: lut_table_[rem] *)
   | None => Oob
   | Some s =>
     match arr_get (d_tbl d) s with                                 (* probability_table_[symbol] *)
@@ -149,18 +167,17 @@ Fixpoint rans_read_n (P : Z) (d : rdec) (n : nat) (st : rstate) : dres (list Z *
 Fixpoint zrepeat {A} (a : A) (n : nat) (tl : list A) : list A :=
   match n with O => tl | S k => a :: zrepeat a k tl end.
 
-(** rans_build_look_up_table(token_probs, num_symbols): cumulative probabilities and the slot -> symbol table;
-    false when the running total exceeds, or the final total differs from, rans_precision.
-    Returns the (prob, cum_prob) list and the lut as a list of length 2^P. *)
-Fixpoint build_tbl (prec : Z) (probs : list Z) (i cum : Z) : option (list (Z * Z) * list Z) :=
+(** rans_build_look_up_table(token_probs, num_symbols): cumulative probabilities;
+    false when the running total exceeds, or the final total differs from, rans_precision. *)
+Fixpoint build_tbl (prec : Z) (probs : list Z) (cum : Z) : option (list (Z * Z)) :=
   match probs with
-  | [] => if cum =? prec then Some ([], []) else None
+  | [] => if cum =? prec then Some [] else None
   | p :: r =>
     let cum' := (cum + p) mod 2 ^ 32 in
     if cum' >? prec then None
-    else match build_tbl prec r (i + 1) cum' with
+    else match build_tbl prec r cum' with
          | None => None
-         | Some (t, lut) => Some ((p, cum) :: t, zrepeat i (Z.to_nat p) lut)
+         | Some t => Some ((p, cum) :: t)
          end
   end.
 
@@ -237,12 +254,12 @@ Definition rans_dec_create (ver P : Z) (bs : bytes) : dres (rdec * bytes) :=
   if ver =? 0 then Fail else
   dlet (n, r) <- of_opt (if ver <? 512 then dec_le 4 bs else dec_varint_u 32 bs);
   if n / 64 >? zlen r then Fail else
-  if n =? 0 then Ok ({| d_n := 0; d_tbl := PositiveMap.empty _; d_lut := PositiveMap.empty _ |}, r) else
+  if n =? 0 then Ok ({| d_n := 0; d_tbl := PositiveMap.empty _ |}, r) else
   if n + 64 >=? 2 ^ 32 then Unmod else
   dlet (probs, r') <- dec_table_loop n 0 r [];
-  match build_tbl (2 ^ P) probs 0 0 with
+  match build_tbl (2 ^ P) probs 0 with
   | None => Fail
-  | Some (t, lut) => Ok ({| d_n := n; d_tbl := arr_of_list t; d_lut := arr_of_list lut |}, r')
+  | Some t => Ok ({| d_n := n; d_tbl := arr_of_list t |}, r')
   end.
 
 (** The bytes just consumed, most recent first, in front of [pre]: [bs] = consumed ++ [rest]. *)
@@ -270,8 +287,9 @@ Definition rans_decode_symbols (ver P : Z) (n : nat) (pre : list Z) (bs : bytes)
   Ok (syms, r').
 
 (** * rans_symbol_encoder.h : Create
-    [rnd freq total]      = static_cast<uint32_t>(double(freq) / double(total) * double(rans_precision) + 0.5f)
-    [scale tot prob]      = static_cast<int32_t>(floor(double(rans_precision) / double(tot) * double(prob)))
+    [rnd total freq]      = static_cast<uint32_t>(double(freq) / double(total) * double(rans_precision) + 0.5f)
+    [relf tot]            = act_rel_error_d = double(rans_precision) / double(tot)      (a value of the type [F])
+    [scalef rel prob]     = static_cast<int32_t>(floor(rel * double(prob)))
     Outcomes: the table (prob per symbol); `return false`; the outer `while (error > 0)` did not end within
     the fuel (it never does in the C++ when it only has one symbol to adjust); or a value left the range of
     its C++ type (an oracle result outside [0, 2^32) resp. outside [0, prob], or a total above int) —
@@ -320,8 +338,10 @@ Fixpoint index_from (i : Z) (l : list Z) : list (Z * Z) :=
 Definition sorted_desc (probs : list Z) : list Z := map snd (sort_runs (index_from 0 probs) []).
 
 Section Create.
+  Variable F : Type.
   Variable rnd : Z -> Z -> Z.
-  Variable scale : Z -> Z -> Z.
+  Variable relf : Z -> F.
+  Variable scalef : F -> Z -> Z.
   Variable P : Z.
   Let prec := 2 ^ P.
 
@@ -329,7 +349,7 @@ Section Create.
       sorted_probabilities[0]); [first] = (j == num_symbols - 1).  [act] is total_rans_prob at the start of the
       pass (act_rel_error_d is computed once per pass), [total]/[err] are updated as the pass goes. *)
   Inductive pass_res := PCont (a : arr Z) (total err : Z) | PFalse | POob | PUnmod.
-  Fixpoint repair_pass (act : Z) (ids : list Z) (first : bool) (a : arr Z) (total err : Z) : pass_res :=
+  Fixpoint repair_pass (act : F) (ids : list Z) (first : bool) (a : arr Z) (total err : Z) : pass_res :=
     match ids with
     | [] => PCont a total err
     | id :: r =>
@@ -338,7 +358,7 @@ Section Create.
       | Some p =>
         if p <=? 1 then (if first then PFalse else PCont a total err)
         else
-          let np := scale act p in
+          let np := scalef act p in
           if (np <? 0) || (np >? p) then PUnmod else
           let fix0 := p - np in
           let fix1 := if fix0 =? 0 then 1 else fix0 in
@@ -355,7 +375,7 @@ Section Create.
     match fuel with
     | O => PCont a total err    (* err > 0 left: reported as CFuel by [rans_create] *)
     | S f =>
-      match repair_pass total ids true a total err with
+      match repair_pass (relf total) ids true a total err with
       | PCont a' total' err' => repair_loop f ids a' total' err'
       | other => other
       end
@@ -373,8 +393,11 @@ Section Create.
   (** Create up to (not including) EncodeTable: the final probabilities. *)
   Definition rans_create (freqs : list Z) : cres :=
     let fr := trim_freqs freqs in
-    let total_freq := zsum freqs in
-    let probs0 := map (fun f => let r := rnd f total_freq in if (r =? 0) && (0 <? f) then 1 else r) fr in
+    let total_freq := zsum freqs mod 2 ^ 64 in
+    let rt := rnd total_freq in
+    (* a zero frequency gives 0.0 / total * precision + 0.5 = 0.5, truncated to 0, for every total > 0: not sent
+       through the oracle, so that the extracted model costs float operations for used symbols only *)
+    let probs0 := map (fun f => let r := if f =? 0 then 0 else rt f in if (r =? 0) && (0 <? f) then 1 else r) fr in
     if negb (forallb (fun r => (0 <=? r) && (r <? 2 ^ 32)) probs0) then CUnmod else
     let total0 := zsum probs0 in
     if total0 >=? 2 ^ 31 then CUnmod else
